@@ -253,6 +253,10 @@ func (e *Explorer) judge(path []string, res *NodeResult, count bool) []viol {
 		cands = append(cands, c)
 	}
 	sync := s.Cfg.SyncWrites
+	gcInPath := false
+	for _, op := range path {
+		gcInPath = gcInPath || strings.HasPrefix(op, "gc:")
+	}
 	for _, c := range cands {
 		if count {
 			p.Add("images_recovered", 1)
@@ -275,6 +279,9 @@ func (e *Explorer) judge(path []string, res *NodeResult, count bool) []viol {
 		where := fmt.Sprintf("config=%s history=[%s] crash at %s (acked=%d accepted=%d); image: %s", s.Name, pathStr(path), c.Desc, c.Acked, c.Accepted, c.Img.Describe())
 		add := func(kind, desc string, post []string) {
 			sig := fmt.Sprintf("%s op=%s at=%s mode=%s sync=%v", kind, lastOp, c.Class, s.Mode, sync)
+			if gcInPath && (strings.HasPrefix(kind, "ack") || kind == "not-a-prefix" || strings.HasPrefix(kind, "unreadable") || strings.HasPrefix(kind, "iter-unreadable")) {
+				sig += " hist=gc" // a value-log GC ran earlier in the history (it re-inserts old versions)
+			}
 			if rec.H != nil && rec.H.DB != nil && (strings.HasPrefix(kind, "ack") || kind == "not-a-prefix") {
 				// where the recovered LSM holds copies of each key: separates "data is there but
 				// not read" from "data is gone" (distinct mechanisms get distinct signatures)
